@@ -44,8 +44,12 @@ def env():
     return _env
 
 
+def _txt(v: Any) -> str:
+    return "" if v is None else str(v)
+
+
 def fmt(msg: str, vars_: dict[str, Any]) -> str:
-    return PH.sub(lambda m: str(vars_.get(m.group(1), "")), msg)
+    return PH.sub(lambda m: _txt(vars_.get(m.group(1), "")), msg)
 
 
 def plural_pick(s: str, p: str, n: Any):
@@ -73,6 +77,9 @@ def judge(ctx: core.Ctx, case: dict[str, Any]) -> None:
     msg = case["msg"]
     vars_ = dict(case.get("vars") or {})
     data: dict[str, Any] = {"m": msg, "pl": case.get("plural"), "cnt": V.dec(case["count"]) if "count" in case else None, "ctxv": case.get("context")}
+    if case.get("outer"):
+        # render data named like the message variables: the value given with the filter / tag is the one that is interpolated, nil included
+        data.update(you="OUTER-YOU", n="OUTER-N")
     count = data["cnt"]
     chosen = msg
     if k == "tag":
@@ -83,7 +90,7 @@ def judge(ctx: core.Ctx, case: dict[str, Any]) -> None:
             args.append("context: ctxv")
         for name in vars_:
             data["val_" + name] = vars_[name]
-            args.append(f"{name}: val_{name}")
+            args.append(f"{name}: nil" if vars_[name] is None and case.get("nil_literal") else f"{name}: val_{name}")
         body = case["body"]
         src = "{% translate " + ", ".join(args) + " %}" + body + ("{% plural %}" + case["plural_body"] if case.get("plural_body") is not None else "") + "{% endtranslate %}"
         sing = body
@@ -103,7 +110,9 @@ def judge(ctx: core.Ctx, case: dict[str, Any]) -> None:
         if "count" in case:
             allvars.setdefault("count", count)
         # only {{ name }} placeholders are substituted; literal text (even text that looks like %(name)s) is left alone
-        exp = re.sub(r"\{\{\s*(\w+)\s*\}\}", lambda m2: str(allvars.get(m2.group(1), "")), chosen)
+        outer = {"you": "OUTER-YOU", "n": "OUTER-N"} if case.get("outer") else {}
+        # a placeholder names a variable of the block's scope: the tag's own arguments first (nil included), then whatever the name means outside
+        exp = re.sub(r"\{\{\s*(\w+)\s*\}\}", lambda m2: _txt(allvars[m2.group(1)] if m2.group(1) in allvars else outer.get(m2.group(1), "")), chosen)
         o = drv.parse_and_render(e, src, data, use_async=case.get("async", False))
         norm = lambda s: WSRUN.sub(" ", s).strip()  # noqa: E731
     else:
@@ -135,7 +144,7 @@ def judge(ctx: core.Ctx, case: dict[str, Any]) -> None:
                 kw.append("count: cnt")
         for name in vars_:
             data["val_" + name] = vars_[name]
-            kw.append(f"{name}: val_{name}")
+            kw.append(f"{name}: nil" if vars_[name] is None and case.get("nil_literal") else f"{name}: val_{name}")
         args = ", ".join(pos + kw)
         src = "{{ " + left + " | " + f + (": " + args if args else "") + " }}"
         if f in ("ngettext", "npgettext") or (f == "t" and plural is not None and "count" in case):
@@ -150,6 +159,9 @@ def judge(ctx: core.Ctx, case: dict[str, Any]) -> None:
         allvars = dict(vars_)
         if "count" in case and f == "t":
             allvars.setdefault("count", count)
+        if case.get("outer"):
+            # a placeholder the filter's own arguments do not name is looked up in the render context
+            allvars = {**{"you": "OUTER-YOU", "n": "OUTER-N"}, **allvars}
         exp = fmt(chosen, allvars)
         o = drv.parse_and_render(e, src, data, use_async=case.get("async", False))
         norm = lambda s: s  # noqa: E731
@@ -186,7 +198,9 @@ def cases(ctx: core.Ctx):
             f = ["t", "gettext", "ngettext", "pgettext", "npgettext"][idx % 5]
             c: dict[str, Any] = {"kind": "filter", "filter": f, "msg": msg, "literal": bool(idx % 3 == 0), "async": idx % 13 == 0}
             if idx % 2:
-                c["vars"] = {"you": rng.choice(["Sue", "", "%s", 5])}
+                c["vars"] = {"you": rng.choice(["Sue", "", "%s", 5, None])}
+                c["outer"] = idx % 4 == 1
+                c["nil_literal"] = idx % 8 == 1
             if f in ("ngettext", "npgettext") or (f == "t" and idx % 4 == 0):
                 c["plural"] = rng.choice(["%(n)s items", "many", "100% of %(you)s", msg + "s"])
                 c["count"] = V.enc(rng.choice(COUNTS[:-1]))
@@ -208,7 +222,9 @@ def cases(ctx: core.Ctx):
             c = {"kind": "tag", "msg": body, "body": body, "async": idx % 13 == 0}
             vs = {}
             if "{{ you }}" in body and idx % 3:
-                vs["you"] = rng.choice(["Sue", "%s", "", 7])
+                vs["you"] = rng.choice(["Sue", "%s", "", 7, None])
+                c["outer"] = idx % 2 == 0
+                c["nil_literal"] = idx % 4 == 0
             if "{{ n }}" in body and idx % 2:
                 vs["n"] = rng.choice([1, "x"])
             if vs:
